@@ -1242,7 +1242,7 @@ func CronMain(args []string) (interface{}, error) {
 				}
 				if w.Inf.JobConfigs.Pending() > 0 {
 					add(Label{A: "DeliverJC"}, 4)
-					if !*twin && rng.Intn(15) == 0 {
+					if !*twin && rng.Intn(5) == 0 {
 						add(Label{A: "JCWatchBreak"}, 1)
 					}
 				}
